@@ -93,6 +93,10 @@ def repo_fingerprint():
 # overlays
 # ---------------------------------------------------------------------------
 
+# harness modules that use items of another harness module
+HARNESS_DEPS = {"transcode::value": ["transcode::stream"]}
+
+
 class Overlay:
     """A scratch copy of /repo's working tree with harness modules injected.
 
@@ -104,7 +108,15 @@ class Overlay:
                            release build users run (debug_assert! and cfg!(debug_assertions) compiled out)
     """
 
-    def __init__(self, kind, scratch):
+    def __init__(self, kind, scratch, modules=None):
+        # modules: rust module paths whose harness files are needed (None = all). Injecting only what the selected
+        # queries use keeps a change in an unrelated module from breaking the compilation of these harnesses.
+        if modules is not None:
+            modules = set(modules)
+            for m, deps in HARNESS_DEPS.items():
+                if m in modules:
+                    modules |= set(deps)
+        self.modules = modules
         self.kind = kind
         self.dir = os.path.join(scratch, "ov-" + re.sub(r"[^a-z0-9]+", "-", kind))
         self.injected = []
@@ -119,6 +131,8 @@ class Overlay:
             self._build_cli()
             return
         for mod, h in INJECT.items():
+            if self.modules is not None and mod_to_path(mod) not in self.modules:
+                continue
             hp = os.path.join(ROOT, "harness", h)
             mp = os.path.join(self.dir, mod)
             if os.path.exists(hp) and os.path.exists(mp):
